@@ -61,9 +61,11 @@ VALUES = [
     '"a {b {c} "d, e" f} g"',  # quotes and a comma inside braces two deep inside quotes
     '"x" # "a=b, c" # {d=e, f}',  # = and , inside later parts of a concatenation
     "{a\rb\x0cc\u2028d\x0be\xa0}",  # characters str.splitlines / str.isspace treat specially, inside a value
+    "{mail a@b\n{c} @\x0c{d}}",  # an at-sign and a word, then whitespace other than blank / tab, then a brace: no block start
 ]
 VALUES_SMALL = [VALUES[i] for i in (0, 2, 3, 8, 9, 15, 17, 18, 19)]
-HEADS = [("article", ""), ("Article", ""), ("BOOK", " "), ("", ""), ("misc", "\t"), ("in_proc2", "  ")]
+HEADS = [("article", ""), ("Article", ""), ("BOOK", " "), ("", ""), ("misc", "\t"), ("in_proc2", "  "),
+         ("\u017ftring", ""), ("\ufb06RING", " ")]  # entry types that merely resemble a keyword (long s; the st ligature): lower() keeps them apart
 KEYS = ["k", "Doe_2020:x/y", "", "a.b+c", "bs\\ "]  # the last one: a key ending in a backslash (blank before the comma)
 FKEYS = ["title", "Author", "x-y", "f4"]
 WS_FORMS = ["", " ", "\n", "\r\n", " \n\t "]
